@@ -170,3 +170,27 @@ def one_insn(sevm: SEVM, opcode: int, stack_words: list, extra_code: bytes = b""
     if memory is not None:
         ex.st.memory.set_slice(0, len(memory), memory)
     return run(sevm, ex)
+
+
+@contextlib.contextmanager
+def fault_script(script):
+    """Nondeterministic stub for the branching solver: the k-th Path.check call of the run answers `unknown`
+    when script(k) is true (the documented contract of a time-limited solver); otherwise the real verdict."""
+    from halmos.sevm import Path as _Path
+
+    real = _Path.check
+    state = {"k": 0, "faults": 0}
+
+    def check(self, cond):
+        k = state["k"]
+        state["k"] += 1
+        if script(k):
+            state["faults"] += 1
+            return z3.unknown
+        return real(self, cond)
+
+    _Path.check = check
+    try:
+        yield state
+    finally:
+        _Path.check = real
